@@ -162,6 +162,7 @@ def step (d : DS) (line : String) : DS × String :=
       match Hex.toBytes h with
       | some p => finish d (xmppSendRawString c (classifyUser p)) "ok"
       | none => (d, "= bad-op")
+    | ["althost", _] => finish d c "ok"        -- where to connect to: not what the stream is about
     | ["udisc"] => finish d (xmppDisconnect c) "ok"
     | ["utls"] =>
       if c.state ≠ .connected || c.hasTls then finish d c "rc skipped"
